@@ -805,6 +805,65 @@ impl FriProofL {
     }
 }
 
+// ---------------------------------------------------------------------------------------------------------------------
+// OodFrame::set_trace_states / set_constraint_evaluations (air/src/proof/ood_frame.rs, C04 / C12): what the prover stores in the
+// proof and what it hands to the coin are the same values. For every frame: the trace-state section becomes the byte 2 followed by
+// the encodings of the current / next evaluations interleaved per column, the Lagrange section becomes the number of Lagrange
+// kernel values followed by their encodings, and the RETURNED digest - the one the prover channel reseeds the coin with - is
+// hash_elements of exactly those values in that order, i.e. TraceOodFrame::hash (what the verifier recomputes from the parsed
+// frame). set_constraint_evaluations stores exactly the encodings of the evaluations. The sections other than the written ones
+// are untouched; the "already set" assertions are the documented pre-conditions.
+// Literal rewrites (listed): the three `Vec<u8>` sections are `VecWriter`s (Vec<u8> as a ByteWriter; write_many is proved in unit
+// serdev); `a.into_iter().chain(b).collect()` becomes the shim concat_vec (a followed by b); `u8::MAX.into()` is `u8::MAX as usize`.
+pub struct OodFrameW { pub trace_states: VecWriter, pub lagrange_kernel_trace_states: VecWriter, pub evaluations: VecWriter }
+impl VecWriter {
+    #[verifier::external_body]
+    pub fn write_u8(&mut self, b: u8) ensures final(self).v@ == old(self).v@ + seq![b] { unimplemented!() }
+    pub fn is_empty(&self) -> (r: bool) ensures r == (self.v@.len() == 0) { self.v.len() == 0 }
+    #[verifier::external_body]
+    pub fn write_many_slice(&mut self, e: &[T]) ensures final(self).v@ == old(self).v@ + enc_many(e@) { unimplemented!() }
+}
+#[verifier::external_body]
+pub fn concat_vec(a: Vec<T>, b: Vec<T>) -> (r: Vec<T>) ensures r@ == a@ + b@ { unimplemented!() }
+
+impl OodFrameW {
+    //@@ source air/src/proof/ood_frame.rs
+    //@@ extract anchor="pub fn set_trace_states<E, H>(&mut self, trace_ood_frame: &TraceOodFrame<E>) -> H::Digest"
+    //@@ rewrite-re "assert!\(([^,]+),[^;]*\);" => "if !(\1) { must_not_panic(); }"
+    //@@ rewrite-re "debug_assert!\(([^;]*)\);" => "assert(\1);"
+    //@@ rewrite "u8::MAX.into()" => "(u8::MAX as usize)"
+    //@@ rewrite "let elements_to_hash: Vec<E> =" => "let elements_to_hash: Vec<T> ="
+    //@@ rewrite-re "main_and_aux_trace_states\.into_iter\(\)\.chain\(lagrange_trace_states\)\.collect\(\)" => "concat_vec(main_and_aux_trace_states, lagrange_trace_states)"
+    //@@ rewrite "H::hash_elements(" => "HH::hash_elements("
+    pub fn set_trace_states(&mut self, trace_ood_frame: &TraceOodFrame) -> (r: Dg)
+        requires
+            old(self).trace_states.v@.len() == 0, old(self).lagrange_kernel_trace_states.v@.len() == 0,
+            trace_ood_frame.current_row.len() == trace_ood_frame.next_row.len(), trace_ood_frame.current_row.len() <= usize::MAX / 2,
+            lag_values(*trace_ood_frame).len() < 255,
+        ensures
+            final(self).trace_states.v@ =~= seq![2u8] + enc_many(interleave(trace_ood_frame.current_row@, trace_ood_frame.next_row@)),
+            final(self).lagrange_kernel_trace_states.v@ =~= seq![lag_values(*trace_ood_frame).len() as u8] + enc_many(lag_values(*trace_ood_frame)),
+            final(self).evaluations == old(self).evaluations,
+            // the digest handed to the coin is the hash of exactly the stored values: what TraceOodFrame::hash computes
+            r == hash_elements_of(interleave(trace_ood_frame.current_row@, trace_ood_frame.next_row@) + lag_values(*trace_ood_frame)),
+    {
+        /*@@body*/
+    }
+
+    //@@ extract anchor="pub fn set_constraint_evaluations<E: FieldElement>(&mut self, evaluations: &[E])"
+    //@@ rewrite-re "assert!\(([^,]+),[^;]*\);" => "if !(\1) { must_not_panic(); }"
+    //@@ rewrite "self.evaluations.write_many(evaluations);" => "self.evaluations.write_many_slice(evaluations);"
+    pub fn set_constraint_evaluations(&mut self, evaluations: &[T])
+        requires old(self).evaluations.v@.len() == 0, evaluations@.len() > 0
+        ensures
+            final(self).evaluations.v@ =~= enc_many(evaluations@),
+            final(self).trace_states == old(self).trace_states,
+            final(self).lagrange_kernel_trace_states == old(self).lagrange_kernel_trace_states,
+    {
+        /*@@body*/
+    }
+}
+
 proof fn oodv_canary_must_fail(b: Seq<u8>)
     requires trace_ok(b, 1)
     ensures b.len() == 1
